@@ -30,6 +30,7 @@ type c21Step struct {
 	Uni  bool   `json:"uni,omitempty"`
 	N    int64  `json:"n,omitempty"`
 	F    string `json:"f,omitempty"` // frame with which the peer touches a stream
+	M    int    `json:"m,omitempty"` // latelocal: what the app does next (0 nothing, 1 NewStream with a cancelled context, 2 blocking NewStream)
 }
 
 type c21Case struct {
@@ -65,6 +66,7 @@ func c21Gen(t *rapid.T) c21Case {
 		"fullclose", "fullclose", "fullclose", "fullclose", "openclose", "openclose", "openclose",
 		"peerfin", "peerreset", "appclose", "appclose", "appcloseread", "appclosewrite", "appreset",
 		"localclose", "localclose", "localclose", "localclose", "localappclose", "localpeerfin",
+		"latelocal", "latelocal", "latelocal",
 		"ack", "ack", "advance",
 	}
 	frame := rapid.SampledFrom(c21PeerFrames)
@@ -93,6 +95,10 @@ func c21Gen(t *rapid.T) c21Case {
 			s.N = rapid.Int64Range(0, 200).Draw(t, "num")
 			s.F = frame.Draw(t, "frame")
 		case "openclose", "localclose":
+		case "latelocal":
+			s.N = rapid.Int64Range(0, 7).Draw(t, "slot")
+			s.F = rapid.SampledFrom([]string{"stream", "reset", "maxsd", "stop"}).Draw(t, "frame")
+			s.M = rapid.SampledFrom([]int{0, 1, 1, 2, 2}).Draw(t, "then")
 		default: // operations on an accepted peer stream: slot
 			s.N = rapid.Int64Range(0, 7).Draw(t, "slot")
 		}
@@ -280,6 +286,7 @@ func c21Run(t *testing.T, c c21Case, r *vp.Rec) error {
 
 	var pending []*c21Async
 	var locals [streamTypeCount][]*Stream
+	var localsClosed [streamTypeCount][]*Stream // closed by the app with everything acked (and the peer's FIN, if bidi)
 	gotLocal := func(s *Stream, how string) error {
 		s.SetReadContext(ctx)
 		s.SetWriteContext(ctx)
@@ -537,6 +544,61 @@ func c21Run(t *testing.T, c c21Case, r *vp.Rec) error {
 			}
 			tc.writeAckForAll()
 			localClosed = true
+			if localSeen[s.id] {
+				localsClosed[ty] = append(localsClosed[ty], s)
+			}
+		case "latelocal":
+			// a late (reordered, retransmitted) peer frame for a local stream that is
+			// completely closed, then the app opens another stream
+			l := localsClosed[ty]
+			if len(l) == 0 {
+				break
+			}
+			id := l[int(st.N)%len(l)].id
+			f := st.F
+			if ty == uniStream && (f == "stream" || f == "reset") {
+				f = "maxsd" // receive-side frames are illegal on our send-only streams
+			}
+			switch f {
+			case "stream":
+				tc.writeFrames(packetType1RTT, debugFrameStream{id: id, fin: true})
+			case "reset":
+				tc.writeFrames(packetType1RTT, debugFrameResetStream{id: id, code: 1, finalSize: 0})
+			case "maxsd":
+				tc.writeFrames(packetType1RTT, debugFrameMaxStreamData{id: id, max: 1 << 20})
+			case "stop":
+				tc.writeFrames(packetType1RTT, debugFrameStopSending{id: id, code: 2})
+			}
+			r.Class("late-frame-for-closed-local-stream")
+			switch st.M {
+			case 1:
+				s, err := tc.conn.newLocalStream(ctx, ty)
+				if err != nil {
+					refused[ty] = true
+					break
+				}
+				if err := gotLocal(s, "NewStream after a late frame for a closed stream"); err != nil {
+					return err
+				}
+				s.Flush()
+			case 2:
+				if len(pending) >= 6 {
+					break
+				}
+				a := &c21Async{uni: st.Uni, done: make(chan struct{})}
+				go func() {
+					defer close(a.done)
+					a.s, a.err = tc.conn.newLocalStream(bctx, ty)
+				}()
+				pending = append(pending, a)
+				synctest.Wait()
+				select {
+				case <-a.done:
+				default:
+					a.blocked = true
+					refused[ty] = true
+				}
+			}
 		case "localappclose":
 			if l := locals[ty]; len(l) > 0 {
 				l[int(st.N)%len(l)].Close()
